@@ -18,6 +18,12 @@ CLAIMED = {
  "C12": ("exploration", "invariant monitor on /metadata snapshots + panic capture",
    "Same histories; stored-state invariants, the broker's own consistency check, panics (catch_unwind) and refused-allocation atomicity after every operation; host spread of new chunks and replacements against the free pool of the preceding snapshot.",
    "section 2, C12"),
+ "C05": ("exploration", "reference-model monitor + linearizability checker over recorded reply histories",
+   "Sequential SETCLUSTER/SETREPL sequences against a reference model with unique message contents (routing probes and INFOREPL identify the installed message); concurrent deliveries on a multi-thread runtime checked for linearizability of replies, epoch monotonicity and routing-not-older-than-epoch.",
+   "section 2, C05"),
+ "C09": ("exploration", "differential monitor: independent CRC16/hash-tag model + backend execution logs",
+   "Generated slot layouts installed through UMCTL SETCLUSTER on a real proxy; random/binary/brace/slot-targeted keys; every probe is judged by an independent slot model and by which FakeRedis node executed what.",
+   "section 2, C09"),
  "C15": ("exploration", "differential monitor against a strict reference RESP parser/encoder",
    "Generated values and pipelines, every 1-cut split of short streams plus random k-cut splits, through all eight decoder entry points (incl. RespCodec under FramedRead and the paired multi codec) and seven encoder entry points; negative inputs judged by the reference parser.",
    "section 2, C15"),
